@@ -434,7 +434,10 @@ uint32_t IPv6::calculate_headers_size() const {
 }
 
 void IPv6::write_header(const ext_header& header, OutputMemoryStream& stream) {
-    const uint8_t length = header.length_field() / 8;
+    // In 8 byte units, not counting the first 8 bytes
+    const uint8_t length = static_cast<uint8_t>(
+        (header.length_field() + sizeof(uint8_t) * 2 + get_padding_size(header)) / 8 - 1
+    );
     stream.write(header.option());
     stream.write(length);
     stream.write(header.data_ptr(), header.data_size());
